@@ -873,6 +873,21 @@ class Hist:
             else:
                 e = sorted(k.name or '""' for k in n.kids.values() if k.isset)
                 s.emit("ls %d %s" % (c, p), "ls ok " + (",".join(e) or "-"), "ls")
+        elif r < 0.925 and not overlay:
+            # kdump_set_filename: grows the file set to one file if needed (never shrinks it), sets or forgets file.set.0.name
+            nm = rng.choice(["-", hexs("/var/crash/dump.%d" % rng.randrange(100))])
+            num = World.find(s.world.root, "file.set.number")
+            if rng.random() < 0.5:
+                k = rng.randint(2, 4)              # a set of several files first: naming one file must not shrink it
+                s.emit("nfiles %d %d" % (c, k), "nfiles " + s.world.set(num, "num:%d" % k), "exact")
+            st = "ok"
+            if (int(num.val[4:]) if num.val else 0) < 1:       # get_num_files reads the stored number, set or not
+                st = s.world.set(num, "num:1")
+            name = World.find(s.world.root, "file.set.0.name")
+            if st == "ok" and name is not None:
+                st = s.world.set(name, "nil" if nm == "-" else "str:" + nm)
+            s.emit("setfn %d %s" % (c, nm), "setfn " + st, "exact")
+            s.emit("dump %d" % c, s.exp_dump(), "dump")
         elif r < 0.94 and not overlay:
             s.emit("dump %d" % c, s.exp_dump(), "dump")
         elif r < 0.965 and len(s.views) < 5:
